@@ -63,7 +63,9 @@ int __wrap_clock_gettime(clockid_t id, struct timespec* ts) {
   srv::State& s = srv::st();
   bool timeClock = id == CLOCK_MONOTONIC || id == CLOCK_REALTIME || id == CLOCK_MONOTONIC_RAW || id == CLOCK_MONOTONIC_COARSE || id == CLOCK_REALTIME_COARSE || id == CLOCK_BOOTTIME;
   if (!s.active || !timeClock) return __real_clock_gettime(id, ts);   // (every wall / monotonic clock is the one virtual clock)
-  ts->tv_sec = (time_t)(s.nowMs / 1000); ts->tv_nsec = (long)(s.nowMs % 1000) * 1000000L;
+  long long t = s.nowMs;
+  if (id == CLOCK_MONOTONIC_COARSE || id == CLOCK_REALTIME_COARSE) t -= t % 4;   // the _COARSE clocks stand still between two timer ticks (4 ms)
+  ts->tv_sec = (time_t)(t / 1000); ts->tv_nsec = (long)(t % 1000) * 1000000L;
   return 0;
 }
 int __wrap_epoll_wait(int epfd, struct epoll_event* ev, int maxev, int timeout) {
